@@ -40,6 +40,13 @@ VAL = {'uint8': (1, 0), 'int16': (1, -30000), 'int32': (3, -100000), 'float32': 
        '>i2': (1, -30000), '>f4': (.5, -100.), '>u4': (3, 100000)}     # non-native byte order (flat files only)
 
 
+
+def _is_reader(x):
+    """`reader[:, cols]` is itself a reader (the PUBLIC class; no private attribute is consulted, so renaming an
+    internal helper of the readers is not an alarm - refactoring C02 R1)"""
+    from phylib.io.traces import BaseEphysReader
+    return isinstance(x, BaseEphysReader)
+
 def _array(n, nch, dtype):
     a, b = VAL[dtype]
     ids = np.arange(n * nch).reshape((n, nch))
@@ -184,7 +191,7 @@ def impl(case):
                     # successive deferred channel selections: each returns a derived reader
                     r = r[:, _pycols(c1, kind)]
                 out = r[item] if cols is None else r[item, cols]
-                if hasattr(out, '_append_op'):
+                if _is_reader(out):
                     # reader[:, cols] is a derived reader (C02); observe it through indexing
                     out = out[:]
                 rec = dict(ids=_ids(out, dtype), dtype=str(out.dtype), ndim=int(np.ndim(out)))
@@ -199,7 +206,7 @@ def impl(case):
                 except Exception:  # noqa
                     pass
                 out2 = r[item] if cols is None else r[item, cols]
-                if hasattr(out2, '_append_op'):
+                if _is_reader(out2):
                     out2 = out2[:]
                 rec['second_differs'] = _ids(out2, dtype) != rec['ids']
                 res.append(rec)
